@@ -340,12 +340,21 @@ def naStep (h : Nat) (b : Buf) (i : Nat) (c : UInt8) (pf : PFromBody) : Step PFr
 def naMachine (h : Nat) : Machine PFromBody :=
   { step := naStep h, eob := fun _ i pf => (i, .moreBytes, pf.saveS) }
 
-/-- `ParseNameAddrPVal(h, buf, offs, pfrom)`. -/
+/-- what the call leaves in the object besides the loop's work: the local `s` is gone; `pfrom.soffs` was
+    written only at `moreBytes:` (`= s`) and at the successful end (`= 0`), so on every other exit it still
+    holds the value it had when the call started. -/
+def naExit (entrySoffs : Nat) (e : Err) (p : PFromBody) : PFromBody :=
+  if e == .moreBytes || e == .ok || e == .moreValues then { p with s := 0 }
+  else { p with s := 0, soffs := entrySoffs }
+
+/-- `ParseNameAddrPVal(h, buf, offs, pfrom)`. The Go loop never reads `pfrom.soffs` after loading it into
+    the local `s`; the model therefore runs the loop with the field cleared and `naExit` puts back what Go
+    leaves there (identical final object in every case). -/
 def parseNameAddrPVal (h : Nat) (b : Buf) (offs : Nat) (pf : PFromBody) : Nat × Err × PFromBody :=
   if pf.state = .fin then (offs, .ok, pf)
   else
-    let r := runLoop (naMachine h) b offs { pf with s := pf.soffs }
-    (r.1, r.2.1, { r.2.2 with s := 0 })
+    let r := runLoop (naMachine h) b offs { pf with s := pf.soffs, soffs := 0 }
+    (r.1, r.2.1, naExit pf.soffs r.2.1 r.2.2)
 
 def parseFromVal (b : Buf) (offs : Nat) (pf : PFromBody) := parseNameAddrPVal HdrFrom b offs pf
 def parseOneContact (b : Buf) (offs : Nat) (pf : PFromBody) := parseNameAddrPVal HdrContact b offs pf
